@@ -2,6 +2,7 @@ package main
 
 import (
 	"fmt"
+	"os"
 	"go/ast"
 	"go/constant"
 	"go/token"
@@ -91,6 +92,18 @@ func (fr *Frame) constVal(c *ssa.Const) *Val {
 		return &Val{T: t, S: n}
 	}
 	return &Val{T: t, S: u.S.zeroOf(t)}
+}
+
+// boxed is the MakeInterface encoding of a concrete value: mi_T(x), with the facts that make boxing injective and
+// type-tagged asserted for this very term (ground instances keep the solvers' quantifier engines out of it).
+func (u *Unit) boxed(t types.Type, x string, assertFacts bool) string {
+	tn := mangle(shortTypeName(t))
+	fn := u.S.boxFun(tn, u.S.sortOf(t))
+	term := app(fn, x)
+	if assertFacts && !strings.Contains(x, "q!") {
+		u.assertOnce(fmt.Sprintf("(and (= (mi_inv_%s %s) %s) (= (itype %s) %d) (> %s 0))", tn, term, x, term, u.S.boxTag[fn], term))
+	}
+	return term
 }
 
 func (u *Unit) assertOnce(f string) {
@@ -212,9 +225,17 @@ func (fr *Frame) wrote(comp string) {
 	}
 }
 
+var nameHeapOver = func() int {
+	n := 5000
+	if v := os.Getenv("VERIF_NAMEHEAP"); v != "" {
+		fmt.Sscanf(v, "%d", &n)
+	}
+	return n
+}()
+
 func (fr *Frame) setComp(st *State, name, sort, term string) {
 	fr.u.compInit(name, sort)
-	if len(term) > 400 {
+	if len(term) > nameHeapOver {
 		// name large heap terms: an update mentions the previous heap twice, so chains of updates double in size
 		n := fr.u.S.fresh("H_"+name, sort)
 		if !fr.dry {
@@ -528,12 +549,7 @@ func (fr *Frame) execInstr(b *ssa.BasicBlock, idx int, ins ssa.Instruction, st *
 	case *ssa.MakeInterface:
 		x := fr.val(ins.X)
 		xs := fr.termOf(x)
-		so := u.S.sortOf(ins.X.Type())
-		fn := u.S.boxFun(mangle(shortTypeName(ins.X.Type())), so)
-		term := app(fn, xs)
-		if !fr.dry {
-			u.assert("(> " + term + " 0)")
-		}
+		term := u.boxed(ins.X.Type(), xs, !fr.dry)
 		fr.define(ins, term)
 	case *ssa.ChangeInterface:
 		fr.vals[ins] = &Val{T: ins.Type(), S: fr.val(ins.X).S}
